@@ -21,6 +21,7 @@ def cmpFor : String → Option (Nat → Nat → Bool)
   | "stateful" => some fun a b => a % 7 < b % 7
   | "mix" => some fun a b => a % 7 < b % 7
   | "transp" => some fun a b => a < b
+  | "selfref" => some fun a b => a < b
   | _ => none
 
 def parseSetCfg (toks : List String) : Option SSt := do
